@@ -1,4 +1,5 @@
 import Litep2pVerif.Proofs.Wire.KadEncoders
+import Litep2pVerif.Proofs.Wire.Identify
 /-!
 # C19 — Bytes from the network can never panic or over-allocate a decoder
 
@@ -267,6 +268,110 @@ example : (kadFindNodeResponse [1, 2] [{ id := [0, 1, 9], addrs := [[4, 1, 2, 3,
 example : kadFromBytes (fun _ => true) (fun _ => true) 20
     (KMessage.encode (kadGetProvidersResponse [{ id := [7], addrs := [[1], [1], [2]], conn := 3 }] [{ id := [8], addrs := [], conn := 1 }])) =
     some (.getProviders none [{ id := [8], naddrs := 0, conn := 1 }] [{ id := [7], naddrs := 2, conn := 0 }]) := by decide
+/-! ## The identify protocol object (`src/protocol/libp2p/identify.rs`)
+
+`identifyOutbound info remote localId steps`: what the user sees after a remote played `steps` (writes in
+any fragmentation, pauses, close, reset) on our outbound identify substream — the real frame reader
+(`Model/Substream/Codec.lean`, codec `UnsignedVarint(Some(IDENTIFY_PAYLOAD_SIZE))`), the 10 s timeout,
+prost's decoder, the address filters and the event built by `run()`. `info` is what the third-party
+multiaddr parser says about an address. -/
+
+/-- **No byte sequence, fragmentation or timing makes the identify handler panic.** -/
+theorem identify_no_panic (info : List Nat → AddrInfo) (remote localId : List Nat) (steps : List OutStep) (msg : String) :
+    identifyOutbound info remote localId steps ≠ .panic msg := by
+  unfold identifyOutbound
+  have := identifyRead_no_panic steps _ 0 (Litep2pVerif.Substream.rinv_init identifyCodec)
+  split
+  · split <;> simp
+  · rename_i m heq; exact absurd heq (this m)
+  · simp
+
+/-- **Everything an identify event holds on to is bounded by the frame limit**: the strings, the
+protocol set, the observed address and the listen addresses together (plus one per list element) are at
+most `IDENTIFY_PAYLOAD_SIZE` bytes — for every remote behaviour. -/
+theorem identify_event_bounded (info : List Nat → AddrInfo) (remote localId : List Nat) (steps : List OutStep)
+    (e : IdEvent) (h : identifyOutbound info remote localId steps = .event e) : e.size ≤ IDENTIFY_PAYLOAD_SIZE := by
+  unfold identifyOutbound at h
+  split at h
+  · rename_i p hread
+    have hp := identifyRead_le steps _ 0 (Litep2pVerif.Substream.rinv_init identifyCodec) p hread
+    split at h
+    · rename_i e' hh
+      simp only [OutboundResult.event.injEq] at h; subst h
+      exact Nat.le_trans (identifyHandle_size info remote localId p _ hh) hp
+    · simp at h
+  · simp at h
+  · simp at h
+
+/-- **Identity rule of identify.** The identified peer is the peer of the (Noise-authenticated)
+connection, whatever the message says (its `publicKey` field is not consulted); every listen address
+that is reported either names no peer at its end or names that peer; the observed address either is
+absent (empty) or names no peer or names us. -/
+theorem identify_event_identity (info : List Nat → AddrInfo) (remote localId : List Nat) (steps : List OutStep)
+    (e : IdEvent) (h : identifyOutbound info remote localId steps = .event e) :
+    e.peer = remote ∧ (∀ a ∈ e.listen, info a = .noP2p ∨ info a = .p2p remote) ∧
+    (e.observed = [] ∨ info e.observed = .noP2p ∨ info e.observed = .p2p localId) := by
+  unfold identifyOutbound at h
+  split at h
+  · rename_i p _
+    split at h
+    · rename_i e' hh
+      simp only [OutboundResult.event.injEq] at h; subst h
+      exact identifyHandle_identity info remote localId p _ hh
+    · simp at h
+  · simp at h
+  · simp at h
+
+/-- Non-vacuity: a two-piece answer with a pause yields the event; an address naming somebody else is
+dropped; ten seconds of silence, an early close and an oversized announcement yield nothing. -/
+example :
+    let info : List Nat → AddrInfo := fun a => if a = [1] then .p2p [9] else if a = [2] then .p2p [7] else .noP2p
+    identifyOutbound info [9] [7] [.write [14, 0x12, 1, 1, 0x12, 1], .wait 9, .write [2, 0x12, 1, 3, 0x22, 1, 2, 0x2a, 0]] =
+      .event { peer := [9], protocolVersion := some [], userAgent := none, protocols := [], observed := [2], listen := [[1], [3]] } ∧
+    identifyOutbound info [9] [7] [.write [14, 0x12, 1, 1], .wait 10, .write [0x12, 1, 2, 0x12, 1, 3, 0x22, 1, 2, 0x2a, 0]] = .noevent ∧
+    identifyOutbound info [9] [7] [.write [14, 0x12, 1, 1], .close] = .noevent ∧
+    identifyOutbound info [9] [7] [.write [0x81, 0x20, 1, 2]] = .noevent := by decide
+
+/-- **Our own identify message survives the remote-side handler.** The message node `cfg` sends on an
+inbound identify substream (built from its configuration; `observed`: the asker's address as seen by
+`cfg`), when it fits the frame limit, read by the asker's handler in any two-piece fragmentation, yields
+exactly: `cfg`'s peer id, protocol version, agent (the default agent if none is configured), protocol
+set, the observed address (unless it names another peer than the asker) and those of its addresses that
+do not name another peer. -/
+theorem identify_own_roundtrip (info : List Nat → AddrInfo) (cfg : IdLocal) (asker : List Nat) (observed : Option (List Nat))
+    (split : Nat) (hwf : (ownIdentify cfg observed).WF)
+    (hlen : (Identify.encode (ownIdentify cfg observed)).length ≤ IDENTIFY_PAYLOAD_SIZE) :
+    identifyRoundtrip info cfg asker observed split = .event (ownEvent info cfg asker observed) :=
+  identifyRoundtrip_own info cfg asker observed split hwf hlen
+
+example :
+    let cfg : IdLocal := { localId := [0, 2, 8, 1], pv := [0x2f, 0x61], agent := none, protocols := [[0x2f, 0x62], [0x2f, 0x62]],
+                           listen := [[5], [4]], public_ := [[4]] }
+    (ownIdentify cfg (some [6])).WF ∧ (Identify.encode (ownIdentify cfg (some [6]))).length ≤ IDENTIFY_PAYLOAD_SIZE ∧
+    (ownEvent (fun _ => .noP2p) cfg [1] (some [6])).listen = [[4], [5]] ∧
+    (ownEvent (fun _ => .noP2p) cfg [1] (some [6])).protocols = [[0x2f, 0x62]] ∧
+    (ownIdentify cfg (some [6])).publicKey = some [8, 1] := by decide
+
+/-- **A message above the frame limit never reaches the wire, and what does is a prefix of our frame.** -/
+theorem identify_inbound_prefix (cfg : IdLocal) (observed : Option (List Nat)) (cap : Nat) (steps : List InStep) :
+    (IDENTIFY_PAYLOAD_SIZE < (Identify.encode (ownIdentify cfg observed)).length → identifyInbound cfg observed cap steps = []) ∧
+    ∃ k, identifyInbound cfg observed cap steps =
+      (Litep2pVerif.Substream.encodeMsg identifyCodec (Identify.encode (ownIdentify cfg observed))).take k := by
+  unfold identifyInbound
+  refine ⟨?_, ?_⟩
+  · intro hbig
+    have : Litep2pVerif.Substream.accepts identifyCodec (Identify.encode (ownIdentify cfg observed)) = false := by
+      simp [Litep2pVerif.Substream.accepts, identifyCodec, Litep2pVerif.Substream.overMax, hbig]
+    simp [this]
+  · simp only []
+    split
+    · exact ⟨_, rfl⟩
+    · exact ⟨0, by simp⟩
+
+example :
+    let cfg : IdLocal := { localId := [0, 2, 8, 1], pv := [0x2f], agent := some [], protocols := [], listen := [], public_ := [] }
+    identifyInbound cfg none 3 [.read 2, .wait 10, .read 50] = [9, 0x0a, 2, 8, 1] ∧
+    identifyInbound cfg none 3 [.read 2, .wait 9, .read 50] = [9, 0x0a, 2, 8, 1, 0x2a, 1, 0x2f, 0x32, 0] := by decide
 
 end Litep2pVerif.Props.C19
 
@@ -324,3 +429,13 @@ open Litep2pVerif.Props.C19 in
 #print axioms kad_get_providers_request_roundtrip
 open Litep2pVerif.Props.C19 in
 #print axioms kad_get_providers_response_roundtrip
+open Litep2pVerif.Props.C19 in
+#print axioms identify_no_panic
+open Litep2pVerif.Props.C19 in
+#print axioms identify_event_bounded
+open Litep2pVerif.Props.C19 in
+#print axioms identify_event_identity
+open Litep2pVerif.Props.C19 in
+#print axioms identify_own_roundtrip
+open Litep2pVerif.Props.C19 in
+#print axioms identify_inbound_prefix
